@@ -269,26 +269,33 @@ func (g *rig) left(w int) string {
 	return intList(ids)
 }
 
-func (g *rig) effTimeout() time.Duration {
-	// only used for traces whose impact the code itself never computed (see readImpacts)
-	d := g.conf.GetTracesConfig().GetTraceTimeout()
-	if d == 0 {
-		d = time.Minute
-	}
-	return d
+// ejectObs captures what an ejection saw.  It is created BEFORE the real sendTracesEarly (buffered
+// traces and the wall-clock instant) and emits, AFTER it, for every trace that was buffered:
+//   imp <id> = <Trace.totalImpact as memoised by the code's own sort (read, not recomputed)>
+//   age <id> <k> = <span data size> <lo> <hi>     for every span k, where lo/hi bound
+//       time.Since(span.ArrivalTime) at any instant during the call (monotonic wall clock)
+type ejectObs struct {
+	traces []*types.Trace
+	t0     time.Time
 }
 
-// readImpacts is called AFTER the real sendTracesEarly: Trace.CacheImpact memoises the value the
-// code's own sort computed (when non-zero), so this returns exactly the numbers the sort saw; the
-// argument only matters for traces the sort never looked at (single-element buffer) or whose
-// impact is 0 (no data), where it cannot influence the order.
-func (g *rig) readImpacts(prefix string, before []*types.Trace) {
-	sort.Slice(before, func(a, b int) bool { return idOf(before[a].TraceID) < idOf(before[b].TraceID) })
-	for _, t := range before {
-		kit.Ext("imp %s%d = %d", prefix, idOf(t.TraceID), t.CacheImpact(g.effTimeout()))
-	}
+func (g *rig) beforeEject(w int) *ejectObs {
+	tr := collect.VerifDeadlineBuffered(g.coll, w)
+	sort.Slice(tr, func(a, b int) bool { return idOf(tr[a].TraceID) < idOf(tr[b].TraceID) })
+	return &ejectObs{traces: tr, t0: time.Now()}
 }
 
+func (o *ejectObs) emit(prefix string) {
+	t1 := time.Now()
+	for _, t := range o.traces {
+		id := idOf(t.TraceID)
+		kit.Ext("imp %s%d = %d", prefix, id, types.VerifDeadlineTotalImpact(t))
+		for k, sp := range t.GetSpans() {
+			kit.Ext("age %s%d %d = %d %d %d", prefix, id, k, sp.GetDataSize(),
+				int64(o.t0.Sub(sp.ArrivalTime)), int64(t1.Sub(sp.ArrivalTime)))
+		}
+	}
+}
 
 // ---------------------------------------------------------------------------- generator
 
@@ -390,7 +397,7 @@ func (comp) Gen(r *kit.Rng, maxLen int, tier string) kit.Case {
 		}
 		root := r.Chance(25)
 		bytes := int(pick64(r, 0, 1, 2, 10, 10, 100, 1000))
-		age := pick64(r, 0, 0, 0, effTT/8, effTT/4, effTT/2, effTT, 2*effTT)
+		age := pick64(r, 0, 0, 0, effTT/8, effTT/4, effTT/2, 3*effTT/4, effTT, 2*effTT)
 		t := &tr[k]
 		if !t.seen {
 			*t = gtrace{seen: true, first: now, rootAt: -1, limitAt: -1}
@@ -420,8 +427,56 @@ func (comp) Gen(r *kit.Rng, maxLen int, tier string) kit.Case {
 		}
 		return s
 	}
+	// age-flip scenario: an older, smaller trace whose age-weighted impact (size x (4*age/timeout + 1))
+	// is heavier than a fresh, larger one; an ejection of share 0 must take the older one first
+	flip := r.Chance(30)
+	ageFlip := func() {
+		k := int64(1 + r.Intn(4)) // age = k quarters of the trace timeout => multiplier k+1
+		if r.Chance(20) {
+			k = 8
+		}
+		small := int(pick64(r, 10, 40, 100, 200))
+		// fresh size strictly between small and small*(k+1): raw size says "fresh first", impact says "old first"
+		lo, hi := small+1, small*int(k+1)-1
+		big := lo + r.Intn(hi-lo+1)
+		a, b := r.Intn(u), r.Intn(u)
+		for j := 0; j < 4 && (a == b || tr[a].seen || tr[b].seen); j++ {
+			a, b = r.Intn(u), r.Intn(u)
+		}
+		if a == b {
+			return
+		}
+		emit := func(id, bytes int, age int64) {
+			t := &tr[id]
+			if !t.seen {
+				*t = gtrace{seen: true, first: now, rootAt: -1, limitAt: -1}
+			}
+			if !t.decided {
+				t.count++
+				t.size += bytes
+				if limit > 0 && uint64(t.count) > limit && t.limitAt < 0 {
+					t.limitAt = now
+				}
+			}
+			ops = append(ops, fmt.Sprintf("span %d 0 %d %d", id, bytes, age))
+		}
+		if r.Chance(50) {
+			emit(a, small, k*effTT/4)
+			emit(b, big, 0)
+		} else {
+			emit(b, big, 0)
+			emit(a, small, k*effTT/4)
+		}
+		for w := 0; w < workers; w++ {
+			ops = append(ops, fmt.Sprintf("eject %d %d", w, pick64(r, 0, 0, int64(small), int64(big))))
+		}
+	}
 	for i := 0; i < n; i++ {
 		w := r.Intn(workers)
+		if flip && r.Chance(20) {
+			ageFlip()
+			continue
+		}
 		weights := []int{45, 22, 20, 9, 1}
 		if backlog && i < n/2 {
 			weights = []int{80, 10, 4, 5, 1}
@@ -575,10 +630,10 @@ func (r *runner) Do(op []string) (string, bool) {
 		if w < 0 || w >= g.n {
 			return "bad-worker", true
 		}
-		before := collect.VerifDeadlineBuffered(g.coll, w)
+		eo := g.beforeEject(w)
 		collect.VerifDeadlineEject(g.coll, w, bytes)
+		eo.emit("")
 		g.barrier()
-		g.readImpacts("", before)
 		s, ids := sentStr(g.tx.take())
 		kit.Ext("order = %s", intList(ids))
 		return fmt.Sprintf("sent=%s left=%s", s, g.left(w)), true
@@ -595,17 +650,17 @@ func (r *runner) Do(op []string) (string, bool) {
 		g.conf.GetCollectionConfigVal.MaxAlloc = config.MemorySize(m)
 		g.conf.Mux.Unlock()
 		var parts []string
-		var before []*types.Trace
+		var eo *ejectObs
 		shares := make([]int, 0, g.n)
 		evicted := collect.VerifDeadlineCheckAlloc(g.coll,
 			func(w int, bytes int) {
 				shares = append(shares, bytes)
 				kit.Ext("share %d = %d", w, bytes)
-				before = collect.VerifDeadlineBuffered(g.coll, w)
+				eo = g.beforeEject(w)
 			},
 			func(w int) {
+				eo.emit(fmt.Sprintf("%d ", w))
 				g.barrier()
-				g.readImpacts(fmt.Sprintf("%d ", w), before)
 				s, ids := sentStr(g.tx.take())
 				kit.Ext("order %d = %s", w, intList(ids))
 				parts = append(parts, fmt.Sprintf("w=%d sent=%s left=%s", w, s, g.left(w)))
@@ -671,6 +726,7 @@ func facts() map[string]string {
 		"cfgDefaultSpanLimit":      tagDefault(tc, "SpanLimit"),
 		"cfgDefaultMaxExpired":     tagDefault(tc, "MaxExpiredTraces"),
 		"maxExpiredIntBits":        strconv.Itoa(strconv.IntSize),
+		"cacheImpactFactor":        strconv.Itoa(types.VerifDeadlineCacheImpactFactor()),
 	}
 }
 
